@@ -20,6 +20,15 @@
 (* Invariants: every read yields a prefix of the reference sequence and a  *)
 (* finished read yields all of it; every read starts with the filter       *)
 (* parameters the object was built with (so params never change).          *)
+(* save()/from_save() (coba/environments/serialized.py): save() makes one   *)
+(* complete read of the object, cuts what it yields into batches of        *)
+(* `batch` interactions (header, params, batch, batch, ...), COLLECTS them *)
+(* in a list and pickles each afterwards; the environment save() returns   *)
+(* reads the concatenation of the stored batches and keeps no state.  The  *)
+(* size of the environment relative to the batch size (below one batch,    *)
+(* exactly one, one more, several and a partial one) is a dimension of the *)
+(* case space: `batch` is chosen in Init from BatchSet.  Invariant          *)
+(* SavedSound: what is on disk, concatenated, is the reference sequence.   *)
 (* `hist` is the reader-level history; the driver replays each history on  *)
 (* a catalogue of real pipelines (harness/drivers/c04.py).                 *)
 (***************************************************************************)
@@ -30,74 +39,107 @@ CONSTANTS N, Slice, MaxOps,
                                   \*   "local"   a local variable, the object is never modified (the repaired tree)
                                   \*   "finally" stored on the object, put back in a `finally`
                                   \*   "plain"   stored on the object, put back by a plain statement (the pinned tree)
-          DropKillsIter           \* deliberately broken Cache: abandoning a read discards the saved iterator (guard)
+          DropKillsIter,          \* deliberately broken Cache: abandoning a read discards the saved iterator (guard)
+          BatchSet,               \* batch sizes of save() to explore ({} = histories without save(), the original model)
+          AliasBatches            \* deliberately broken save(): the collected full batches are one reused buffer (guard)
 Source == [i \in 1..N |-> i]
 VARIABLES cache, cacheOn, itAlive, itpos,   \* pipes.Cache
           swapped,                         \* Shuffle: seed currently replaced
           rpc, mode, ci, cur, out,         \* the live reader
           startOK,                         \* every read so far began with the original parameters
-          hist, n
-vars == <<cache, cacheOn, itAlive, itpos, swapped, rpc, mode, ci, cur, out, startOK, hist, n>>
-Init == /\ cache = <<>> /\ cacheOn = FALSE /\ itAlive = FALSE /\ itpos = 0 /\ swapped = FALSE
+          hist, n,
+          batch, saving, saved, disk       \* save(): batch size, the live read is save()'s, the object is now the saved one, stored batches
+vars == <<cache, cacheOn, itAlive, itpos, swapped, rpc, mode, ci, cur, out, startOK, hist, n, batch, saving, saved, disk>>
+SaveOn == BatchSet # {}
+Init == /\ batch \in (IF SaveOn THEN BatchSet ELSE {1}) /\ saving = FALSE /\ saved = FALSE /\ disk = <<>>
+        /\ cache = <<>> /\ cacheOn = FALSE /\ itAlive = FALSE /\ itpos = 0 /\ swapped = FALSE
         /\ rpc = "none" /\ mode = "-" /\ ci = 0 /\ cur = <<>> /\ out = <<>> /\ startOK = TRUE /\ hist = <<>> /\ n = 0
 
+(* ---- save(): the collected batches.  Cut = fresh lists of `batch` items (islice); the guard variant collects ONE reused
+        buffer (cleared and refilled after each yield), so every full batch on disk shows the buffer's final content ---- *)
+Min(a,b) == IF a < b THEN a ELSE b
+Cut(s) == IF ~AliasBatches
+          THEN [i \in 1..((Len(s) + batch - 1) \div batch) |-> SubSeq(s, (i-1)*batch + 1, Min(i*batch, Len(s)))]
+          ELSE LET full == Len(s) \div batch  rest == SubSeq(s, full*batch + 1, Len(s)) IN
+               [i \in 1..(full + (IF rest = <<>> THEN 0 ELSE 1)) |-> rest]
+RECURSIVE FlatTo(_,_)
+FlatTo(d, i) == IF i = 0 THEN <<>> ELSE FlatTo(d, i-1) \o d[i]
+Flat(d) == FlatTo(d, Len(d))                \* EnvironmentFromObjects.read: chain.from_iterable(batches)
+
 (* ---- a read begins: the generator chain is created and started (first next()) ---- *)
-Open == /\ rpc = "none" /\ n < MaxOps
-        /\ rpc' = "live" /\ out' = <<>> /\ ci' = 0 /\ cur' = <<>>
+OpenPipe ==
         /\ startOK' = (startOK /\ ~swapped)
         /\ swapped' = (IF HasShuffle /\ ShuffleMode # "local" /\ (~HasCache \/ (~cacheOn /\ ~itAlive)) THEN TRUE ELSE swapped)   \* the Shuffle generator starts when upstream is first pulled
         /\ IF ~HasCache THEN mode' = "direct" /\ UNCHANGED <<cache, cacheOn, itAlive, itpos>>
            ELSE IF ~cacheOn /\ ~itAlive THEN mode' = "fill" /\ cacheOn' = TRUE /\ cache' = <<>> /\ itAlive' = TRUE /\ itpos' = 0
            ELSE IF cacheOn /\ ~itAlive THEN mode' = "replay" /\ UNCHANGED <<cache, cacheOn, itAlive, itpos>>
            ELSE mode' = "resume" /\ UNCHANGED <<cache, cacheOn, itAlive, itpos>>      \* half-filled: buffer first, then the saved iterator
-        /\ UNCHANGED <<hist, n>>
+OpenRead(sv) ==
+        /\ rpc = "none" /\ n < MaxOps
+        /\ rpc' = "live" /\ out' = <<>> /\ ci' = 0 /\ cur' = <<>> /\ saving' = sv
+        /\ UNCHANGED <<hist, n, batch, saved, disk>>
+        /\ (IF saved THEN mode' = "saved" /\ UNCHANGED <<startOK, swapped, cache, cacheOn, itAlive, itpos>>      \* EnvironmentFromObjects.read: no filter, no state
+            ELSE OpenPipe)
+Open == ~saving /\ OpenRead(FALSE)
+Save == SaveOn /\ OpenRead(TRUE)            \* save() = one complete read of the object as it is now (never abandoned), then Finish
 EndRead(kind, k) == /\ rpc' = "none" /\ n' = n + 1 /\ hist' = Append(hist, [op |-> kind, k |-> k])
+(* the read is exhausted: an ordinary read ends; save()'s read stores the batches and the object becomes the saved one *)
+Finish == /\ EndRead(IF saving THEN "save" ELSE "full", Len(out)) /\ saving' = FALSE
+          /\ (IF saving THEN disk' = Cut(out) /\ saved' = TRUE ELSE UNCHANGED <<disk, saved>>)
+          /\ UNCHANGED <<out, batch>>
 (* ---- the reader asks for the next item ---- *)
-Yield(x) == out' = Append(out, x)
-Min(a,b) == IF a < b THEN a ELSE b
+Yield(x) == out' = Append(out, x) /\ UNCHANGED <<rpc, hist, n, swapped, batch, saving, saved, disk>>
 Next1 ==
   /\ rpc = "live"
   /\ CASE mode = "direct" ->
-            IF Len(out) < N THEN Yield(Source[Len(out)+1]) /\ UNCHANGED <<rpc, hist, n, swapped, cache, cacheOn, itAlive, itpos, ci, cur, mode>>
-            ELSE EndRead("full", N) /\ swapped' = FALSE /\ UNCHANGED <<out, cache, cacheOn, itAlive, itpos, ci, cur, mode>>
+            IF Len(out) < N THEN Yield(Source[Len(out)+1]) /\ UNCHANGED <<cache, cacheOn, itAlive, itpos, ci, cur, mode>>
+            ELSE Finish /\ swapped' = FALSE /\ UNCHANGED <<cache, cacheOn, itAlive, itpos, ci, cur, mode>>
+       [] mode = "saved" ->
+            IF Len(out) < Len(Flat(disk)) THEN Yield(Flat(disk)[Len(out)+1]) /\ UNCHANGED <<cache, cacheOn, itAlive, itpos, ci, cur, mode>>
+            ELSE Finish /\ UNCHANGED <<swapped, cache, cacheOn, itAlive, itpos, ci, cur, mode>>
        [] mode = "replay" ->
-            IF ci < Len(cache) THEN Yield(cache[ci+1]) /\ ci' = ci + 1 /\ UNCHANGED <<rpc, hist, n, swapped, cache, cacheOn, itAlive, itpos, cur, mode>>
-            ELSE EndRead("full", N) /\ swapped' = FALSE /\ UNCHANGED <<out, cache, cacheOn, itAlive, itpos, ci, cur, mode>>
+            IF ci < Len(cache) THEN Yield(cache[ci+1]) /\ ci' = ci + 1 /\ UNCHANGED <<cache, cacheOn, itAlive, itpos, cur, mode>>
+            ELSE Finish /\ swapped' = FALSE /\ UNCHANGED <<cache, cacheOn, itAlive, itpos, ci, cur, mode>>
        [] mode \in {"fill", "resume"} ->
             IF ci < Len(cache) /\ cur = <<>> /\ mode = "resume"            \* yield from self._cache
-            THEN Yield(cache[ci+1]) /\ ci' = ci + 1 /\ UNCHANGED <<rpc, hist, n, swapped, cache, cacheOn, itAlive, itpos, cur, mode>>
+            THEN Yield(cache[ci+1]) /\ ci' = ci + 1 /\ UNCHANGED <<cache, cacheOn, itAlive, itpos, cur, mode>>
             ELSE IF cur # <<>>                                                \* yield from current
-            THEN Yield(Head(cur)) /\ cur' = Tail(cur) /\ UNCHANGED <<rpc, hist, n, swapped, cache, cacheOn, itAlive, itpos, ci, mode>>
+            THEN Yield(Head(cur)) /\ cur' = Tail(cur) /\ UNCHANGED <<cache, cacheOn, itAlive, itpos, ci, mode>>
             ELSE IF itAlive /\ itpos < N                                      \* current := list(islice(self._iter, n_slice)); cache.extend
             THEN LET k == Min(Slice, N - itpos)  sl == SubSeq(Source, itpos + 1, itpos + k) IN
                  /\ cache' = cache \o sl /\ itpos' = itpos + k /\ ci' = Len(cache) + k
                  /\ Yield(Head(sl)) /\ cur' = Tail(sl) /\ mode' = "fill"
-                 /\ UNCHANGED <<rpc, hist, n, swapped, cacheOn, itAlive>>
-            ELSE /\ itAlive' = FALSE /\ EndRead("full", N) /\ swapped' = FALSE             \* self._iter = None
-                 /\ UNCHANGED <<out, cache, cacheOn, itpos, ci, cur, mode>>
+                 /\ UNCHANGED <<cacheOn, itAlive>>
+            ELSE /\ itAlive' = FALSE /\ Finish /\ swapped' = FALSE             \* self._iter = None
+                 /\ UNCHANGED <<cache, cacheOn, itpos, ci, cur, mode>>
   /\ UNCHANGED startOK
-(* ---- the caller drops the iterator after Len(out) items ---- *)
-Drop == /\ rpc = "live" /\ Len(out) < N
+(* ---- the caller drops the iterator after Len(out) items (save() never abandons its read) ---- *)
+Drop == /\ rpc = "live" /\ ~saving /\ Len(out) < N
         /\ EndRead("partial", Len(out))
         \* the drop reaches Shuffle's generator only if no Cache keeps that generator for later; `finally` then restores
-        /\ swapped' = (IF (~HasCache \/ DropKillsIter) /\ ShuffleMode = "finally" THEN FALSE ELSE swapped)
-        /\ itAlive' = (IF DropKillsIter THEN FALSE ELSE itAlive)
-        /\ UNCHANGED <<out, cache, cacheOn, itpos, ci, cur, mode, startOK>>
+        /\ swapped' = (IF (~HasCache \/ DropKillsIter) /\ ShuffleMode = "finally" /\ mode # "saved" THEN FALSE ELSE swapped)
+        /\ itAlive' = (IF DropKillsIter /\ mode # "saved" THEN FALSE ELSE itAlive)
+        /\ UNCHANGED <<out, cache, cacheOn, itpos, ci, cur, mode, startOK, batch, saving, saved, disk>>
 Params == /\ rpc = "none" /\ n < MaxOps /\ n' = n + 1 /\ hist' = Append(hist, [op |-> "params", k |-> 0])
-          /\ startOK' = (startOK /\ ~swapped)      \* params shows the seed as it is now
-          /\ UNCHANGED <<cache, cacheOn, itAlive, itpos, swapped, rpc, mode, ci, cur, out>>
+          /\ startOK' = (startOK /\ (saved \/ ~swapped))      \* params shows the seed as it is now (a saved environment: the stored params)
+          /\ UNCHANGED <<cache, cacheOn, itAlive, itpos, swapped, rpc, mode, ci, cur, out, batch, saving, saved, disk>>
 (* pickling copies the object's state (a live saved iterator cannot be pickled: the copy starts with what is in the buffer
    only if the buffer is complete; the driver checks that pickling works at all) *)
 Pickle == /\ rpc = "none" /\ n < MaxOps /\ n' = n + 1 /\ hist' = Append(hist, [op |-> "pickle", k |-> 0])
-          /\ UNCHANGED <<cache, cacheOn, itAlive, itpos, swapped, rpc, mode, ci, cur, out, startOK>>
-Next == Open \/ Next1 \/ Drop \/ Params \/ Pickle
+          /\ UNCHANGED <<cache, cacheOn, itAlive, itpos, swapped, rpc, mode, ci, cur, out, startOK, batch, saving, saved, disk>>
+Next == Open \/ Save \/ Next1 \/ Drop \/ Params \/ Pickle
 Spec == Init /\ [][Next]_vars
 
 IsPrefix(a, b) == Len(a) <= Len(b) /\ \A i \in DOMAIN a : a[i] = b[i]
 PrefixAlways  == IsPrefix(out, Source)
-FullWhenDone  == \A i \in DOMAIN hist : hist[i].op = "full" => hist[i].k = N
-FinishedAll   == (rpc = "none" /\ hist # <<>> /\ hist[Len(hist)].op = "full") => out = Source
+FullWhenDone  == \A i \in DOMAIN hist : hist[i].op \in {"full", "save"} => hist[i].k = N
+FinishedAll   == (rpc = "none" /\ hist # <<>> /\ hist[Len(hist)].op \in {"full", "save"}) => out = Source
 ParamsStable  == startOK
 CacheSound    == HasCache => IsPrefix(cache, Source) /\ (cacheOn /\ ~itAlive /\ rpc = "none" => cache = Source)
-Emit == (n = MaxOps /\ rpc = "none") => PrintT(ToJson(hist))
+SavedSound    == saved => Flat(disk) = Source        \* the saved environment holds the sequence that was saved
+(* without save(): every history, as a list.  With save(): the histories that contain a save(), with the size class
+   (N items against batches of `batch`) that the driver renders as a real environment of the corresponding length *)
+Emit == (n = MaxOps /\ rpc = "none") =>
+          (IF ~SaveOn THEN PrintT(ToJson(hist))
+           ELSE ((\E i \in DOMAIN hist : hist[i].op = "save") => PrintT(ToJson([hist |-> hist, size |-> N, batch |-> batch]))))
 =============================================================================
